@@ -18,7 +18,7 @@ def rename_fields(fields, resources=None, regex=True):
         dp_resources = package.pkg.descriptor.get('resources', [])
         field_res = [
             (re.compile(
-                '^(?:{})$'.format(
+                '^(?:{})\\Z'.format(
                     src if regex else re.escape(src)
                 )
             ), tgt) for src, tgt in fields.items()
